@@ -484,6 +484,9 @@ class Walker:
                     for k, v in list(st.env.items()):
                         if v is recv:
                             st.env[k] = new
+                    self.seq += 1
+                    st.events.append(Event('call', name='append', recv=recv, args=args, kwargs={}, node=n,
+                                           conds=tuple(st.conds), loops=tuple(st.loops), seq=self.seq, value='<list>.append'))
                     return None
                 text = '%s.%s(%s)' % (self.base_text(recv), fn.attr, self.argtext(args, kwargs))
             else:
@@ -700,6 +703,9 @@ class Walker:
             for n in ast.walk(node):
                 if isinstance(n, ast.Name) and isinstance(n.ctx, (ast.Store, ast.Del)):
                     names.add(n.id)
+                if isinstance(n, ast.Call) and isinstance(n.func, ast.Attribute) and isinstance(n.func.value, ast.Name) \
+                        and n.func.attr in ('append', 'extend', 'insert', 'remove', 'pop', 'sort', 'reverse', 'clear', 'add', 'update'):
+                    names.add(n.func.value.id)
         return names
 
     def bind(self, target, value, st, node, aug=None):
